@@ -404,6 +404,20 @@ func decodeCase(out *Out, t *Target, g *vval.StreamGen, bs []byte, into *vval.Va
 		if err != nil {
 			if !malformed {
 				out.Violate("C03", "rejects-well-typed"+fk, "generated code rejects a well-typed stream: "+err.Error(), replay("dec"))
+				// C14: if the same stream with its unknown records removed (by the reference) is accepted,
+				// the rejection is caused by an unknown record that had to be stored
+				if strings.Contains(fk, "unknown") && !merge {
+					stripped := dynamicpb.NewMessage(t.Desc)
+					if (proto.UnmarshalOptions{DiscardUnknown: true}).Unmarshal(bs, stripped) == nil {
+						if sb, e := proto.Marshal(stripped); e == nil {
+							m2 := t.B.ToMessage(0, vval.Empty(t.S, 0))
+							var e2 error
+							if p2, _ := guard(func() { e2 = proto.Unmarshal(sb, m2) }); !p2 && e2 == nil {
+								out.Violate("C14", "rejects-unknown-record"+fk, "generated code rejects a well-typed stream because of an unknown record (accepts it once the unknown records are removed): "+err.Error(), replay("dec"))
+							}
+						}
+					}
+				}
 			} else {
 				out.Count("malformed_ref_ok_impl_err")
 			}
